@@ -62,3 +62,20 @@ Definition query_ok_implicit_pub (tol tolb tols : Q) (k : nat) (lam : Q) (ivocab
   let hh := match h with Some l => l | None => [] end in
   query_ok_implicit tol tolb tols k lam ivocab items P weight use_ratings prefer user_num h cands
     (Some (foldin_rows_implicit weight use_ratings ivocab hh, x)) obs_scores.
+
+(* 3. The user bias that applies to a scoring call of BiasedMFScorer.  When a history is folded in (UFold) it
+      is the bias derived from THAT history, `foldin_user_bias` -- whatever its value, 0 included: a history whose
+      residuals r - b_g - b_i cancel gives exactly 0, and the embedding was solved against ratings normalised
+      with that 0, so the score must add that 0 and not the bias training stored for the same user id.  The
+      stored bias applies only when the trained embedding is used (UTrained). *)
+Definition hist_residuals (b : biases) (vocab : list Z) (h : hist) : list Q :=
+  map (fun ir => snd ir - b_global b -
+         match number vocab (fst ir) with Some n => nth n (b_item b) 0 | None => 0 end) h.
+Definition applicable_user_bias (b : biases) (damp_u : Q) (vocab : list Z) (path : upath) (h : hist) : Q :=
+  match path with
+  | UFold => foldin_user_bias b damp_u vocab h
+  | UTrained n => nth n (b_user b) 0
+  | UNone => 0
+  end.
+Definition with_user_bias (b : biases) (bu : list Q) : biases :=
+  {| b_global := b_global b; b_item := b_item b; b_user := bu |}.
